@@ -8,7 +8,9 @@ import (
 	"fmt"
 	"os"
 	"strconv"
+	"syscall"
 	"testing"
+	"testing/synctest"
 )
 
 var (
@@ -49,4 +51,31 @@ func progress(format string, a ...any) {
 		return
 	}
 	os.WriteFile(outDir+"/progress.txt", []byte(fmt.Sprintf(format, a...)+"\n"), 0o644)
+}
+
+// inOneBubble: the current component runs all its scenarios inside a single synctest bubble (needed when the library
+// leaks goroutines that never end, such as the session-aware adapter's cleaner: a bubble cannot be left normally then).
+var inOneBubble bool
+
+func runBubble(t *testing.T, f func(t *testing.T)) {
+	if inOneBubble {
+		f(t)
+		return
+	}
+	synctest.Test(t, f)
+}
+
+// componentOneBubble runs f inside one bubble and leaves the process with syscall.Exit after flushing the results.
+func componentOneBubble(t *testing.T, f func(h *H)) {
+	dir := outDir
+	if dir == "" {
+		dir = t.TempDir()
+	}
+	synctest.Test(t, func(t *testing.T) {
+		inOneBubble = true
+		h := newH(dir, tier, seed)
+		f(h)
+		h.close()
+		syscall.Exit(0)
+	})
 }
